@@ -154,7 +154,14 @@ pub enum Op {
 }
 pub fn perform(quotes: &[Quote], base: &Option<String>, ops: &[Op], r: &mut Rng) -> Vec<Value> {
     let mut ev = vec![];
-    let names = probe_names(quotes);
+    // sensitivities are read back by the names of the construction quotes and of every later re-quote
+    let mut all_q: Vec<Quote> = quotes.to_vec();
+    for op in ops {
+        if let Op::Update(u) = op {
+            all_q.extend(u.iter().cloned());
+        }
+    }
+    let names = probe_names(&all_q);
     let qj: Vec<Value> = quotes.iter().map(|q| q.json()).collect();
     let basej: Vec<String> = base.iter().cloned().collect();
     // a third of the histories are made the way Python makes them: the class constructor, then the Python-facing `update` /
@@ -245,7 +252,22 @@ fn rand_ops(r: &mut Rng, quotes: &[Quote], len: usize) -> Vec<Op> {
                 for step in 0..k {
                     let i = if twice || step == 0 { first } else { r.below(cur.len() as u64) as usize };
                     let mut q = cur[i].clone();
-                    q.v = rand_rate(r);
+                    // one re-quote in four REPEATS the present value: the market must still be rebuilt from the latest
+                    // quotes (its order goes back to 1, and the kind / variables of the latest quote are what counts)
+                    if !r.chance(0.25) {
+                        q.v = rand_rate(r);
+                    }
+                    // one in four changes the KIND of the quote (plain number <-> first-order number on the pair's own
+                    // variable, with a zero or a non-unit sensitivity); never in a market holding second-order quotes,
+                    // where mixing the two dual kinds is refused by design
+                    if r.chance(0.25) && cur.iter().all(|c| c.h.is_empty()) {
+                        q = if q.is_dual {
+                            Quote::float(&q.l, &q.r, q.v, q.settle)
+                        } else {
+                            let g = if r.coin() { 0.0 } else { r.uniform(-2.0, 2.0) };
+                            Quote::dual(&q.l, &q.r, q.v, vec![format!("fx_{}{}", q.l, q.r)], vec![g], q.settle)
+                        };
+                    }
                     cur[i] = q.clone();
                     upd.push(q);
                 }
